@@ -69,6 +69,7 @@ func checkC01(c *Ctx) {
 	profs := c01Profiles()
 	for i := 0; i < n; i++ {
 		g := NewGen(r, profs[i%len(profs)])
+		g.shadowBias = i%5 == 4 // every fifth program redeclares visible names at every opportunity (nested shadowing)
 		p := g.Program(fmt.Sprintf("c01-%d", i))
 		progs = append(progs, p)
 	}
